@@ -302,7 +302,14 @@ def _cprio(run: Any, key: tuple, ex: Expect, out: dict) -> List[dict]:
     got = out["value"]
     tags = ["selection"] if ex.selected is not None else []
     bad = []
-    for nid, want in mg["cp"].items():
+    cp_ref = mg["cp"]
+    if ex.note == "composed":
+        # a composed DAG is its own graph: descendants are counted inside the composed node set only
+        keep = {nid for nid, a in mg["attrs"].items() if a["role"] == "main" and len(a["path"]) == 1 and a["path"][0][1] in (ex.selected or ())}
+        succ2 = {n: {m for m in mg["succ"].get(n, ()) if m in keep} for n in keep}
+        cp_ref = ref_cprio(succ2, {n: mg["attrs"][n]["prio"] for n in keep})
+        tags = ["composed"]
+    for nid, want in cp_ref.items():
         a = mg["attrs"][nid]
         if ex.selected is not None and nid not in got:
             continue   # not part of the executor's graph
